@@ -1,8 +1,8 @@
 """C09 — density filters are the normalised local averages they are defined to be.
 
 Two families of cases, both executed against the real modules and judged by reference models
-written here from the defining formulas (plain numpy index arithmetic, no scipy.signal, no
-np.pad in the deciding model):
+written here from the defining formulas (plain numpy index arithmetic, no scipy.signal; np.pad only
+in the second admissible reading for kernels wider than the domain, see ASSUMPTIONS):
 
 * ``dens``: DensityFilter on a 2D/3D grid for several radii; reference = brute-force
   ``y_i = sum_j max(0, r-d_ij) x_j / sum_j max(0, r-d_ij)`` over ALL element pairs
@@ -49,8 +49,8 @@ ASSUMPTIONS = [
     "DensityFilter distances are measured in elements (documentation: radius 'in units of elements'); nonpadding "
     "option is outside the statement ('normalised per element')",
     "radius kernel of FilterConv: cone max(0, r-d) on offsets |k_a| <= n_a (the module cuts the support at the domain "
-    "size per axis), normalised; d in elements (relative_units) or in element sizes (absolute). Radii within 1e-8 "
-    "(relative) above a multiple of the element size are skipped: the module documents a 1e-10 cut-off there",
+    "size per axis), normalised; d in elements (relative_units) or in element sizes (absolute). Radii between 1e-13 "
+    "and 1e-8 (relative) above a multiple of the element size are skipped: the module documents a 1e-10 cut-off there",
     "kernel wider than the domain on an axis (half-width p > n) with different rules on the two sides: 'extended by "
     "the selected rule' has two readings (a side's rule sees only the original data / sees the field as already "
     "extended on the other side, min side last); the output must equal one of them. For p <= n they coincide",
@@ -59,15 +59,15 @@ ASSUMPTIONS = [
     "fields are float64; kernels given as 2D (nx,ny) or 3D arrays; a kernel with z-extent > 1 on a 2D domain is wider "
     "than the padded domain and outside the quantifier; FilterConv.override_values (interior overrides) has no "
     "semantics in the statement and is not exercised",
-    "bounds: quick grids <= 6 per axis (3D DensityFilter exhaustive <= 4), thorough <= 10 (2D) / 6 (3D)",
+    "bounds: quick grids <= 6 per axis (3D DensityFilter exhaustive <= 4); thorough DensityFilter exhaustive <= 12x12 / 7^3, random 3D <= 9, FilterConv grids <= 8 per axis; kernel half-width <= n+2 on one axis, <= 3 elsewhere",
 ]
 FLOORS = {
-    "quick": {"cases_held": 400, "distinct_nontrivial": 150, "dens_entries_compared": 20000,
-              "conv_entries_compared": 40000, "constant_checks": 400, "range_checks": 1500, "volume_checks": 150,
-              "conv_wide_kernel_cases": 60, "conv_rule_pairs_seen": 100},
-    "thorough": {"cases_held": 5000, "distinct_nontrivial": 1500, "dens_entries_compared": 300000,
-                 "conv_entries_compared": 500000, "constant_checks": 5000, "range_checks": 20000,
-                 "volume_checks": 1000, "conv_wide_kernel_cases": 800, "conv_rule_pairs_seen": 2000},
+    "quick": {"cases_held": 680, "distinct_nontrivial": 480, "dens_entries_compared": 22000,
+              "conv_entries_compared": 60000, "constant_checks": 580, "range_checks": 2300, "volume_checks": 340,
+              "conv_wide_kernel_cases": 160, "conv_padded_axes_checked": 1250},
+    "thorough": {"cases_held": 8300, "distinct_nontrivial": 4900, "dens_entries_compared": 300000,
+                 "conv_entries_compared": 1200000, "constant_checks": 4800, "range_checks": 19000,
+                 "volume_checks": 3600, "conv_wide_kernel_cases": 1400, "conv_padded_axes_checked": 17000},
 }
 TIMEOUT_CASE = 120
 
@@ -150,7 +150,7 @@ def plan(tier, seed):
     rng = rng_for(seed, "C09", "plan", tier)
     cases = []
     # ---- DensityFilter: all shapes up to the bound
-    b2, b3 = (6, 4) if quick else (10, 6)
+    b2, b3 = (6, 4) if quick else (12, 7)
     shapes = [[i, j, 0] for i in range(1, b2 + 1) for j in range(1, b2 + 1)]
     shapes += [[i, j, k] for i in range(1, b3 + 1) for j in range(1, b3 + 1) for k in range(1, b3 + 1)]
     shapes += [_shape(rng, 3, 6 if quick else 9) for _ in range(24 if quick else 80)]
@@ -167,7 +167,7 @@ def plan(tier, seed):
         for ax in range(dim):
             for m0, m1 in itertools.product(MODES6, MODES6):
                 for wide in (False, True):
-                    for _ in range(1 if quick else 3):
+                    for _ in range(1 if quick else 5):
                         modes = [None] * 6
                         modes[2 * ax], modes[2 * ax + 1] = m0, m1
                         # other axes: mostly non-constant so that the invariants stay decidable often
@@ -186,15 +186,15 @@ def plan(tier, seed):
                 cases.append(_conv_case(rng, dim, 4, modes=modes, kernel_kind=kk, n=n,
                                         narrow_axis=int(rng.integers(0, dim))))
     # ---- (c) random
-    for i in range(700 if quick else 9000):
+    for i in range(700 if quick else 20000):
         dim = 2 if rng.random() < 0.45 else 3
         cases.append(_conv_case(rng, dim, nmax))
     # all-symmetric + mirror/radius kernels (volume clause) and one-element-wide domains explicitly
-    for i in range(120 if quick else 1200):
+    for i in range(120 if quick else 3000):
         dim = 2 if rng.random() < 0.5 else 3
         kk = ["mirror", "radius-rel", "radius-abs"][int(rng.integers(0, 3))]
         cases.append(_conv_case(rng, dim, nmax, modes=["symmetric"] * 6, kernel_kind=kk))
-    for i in range(60 if quick else 600):
+    for i in range(60 if quick else 1500):
         dim = 2 if rng.random() < 0.5 else 3
         n = _shape(rng, dim, nmax)
         n[int(rng.integers(0, dim))] = 1
@@ -241,16 +241,16 @@ def _invariants(ctx, fam, fname, x, y, wit, averaging, volume):
     tol = TOL * ax + 1e-300
     ctx.count("range_checks")
     if y.min() < lo - tol or y.max() > hi + tol:
-        raise Violation(f"{fam}/output-outside-input-range", field=fname, min_x=lo, max_x=hi, min_y=float(y.min()),
+        ctx.violate(f"{fam}/output-outside-input-range", field=fname, min_x=lo, max_x=hi, min_y=float(y.min()),
                         max_y=float(y.max()), **wit)
     if fname == "constant":
         ctx.count("constant_checks")
         if float(np.max(np.abs(y - x[0]))) > TOL * abs(float(x[0])) + 1e-300:
-            raise Violation(f"{fam}/constant-field-not-preserved", constant=float(x[0]), got=y, **wit)
+            ctx.violate(f"{fam}/constant-field-not-preserved", constant=float(x[0]), got=y, **wit)
     if volume:
         ctx.count("volume_checks")
         if abs(float(y.sum() - x.sum())) > TOL * x.size * ax + 1e-300:
-            raise Violation(f"{fam}/volume-not-preserved-with-symmetric-padding-and-kernel", field=fname,
+            ctx.violate(f"{fam}/volume-not-preserved-with-symmetric-padding-and-kernel", field=fname,
                             sum_x=float(x.sum()), sum_y=float(y.sum()), **wit)
 
 
@@ -285,11 +285,12 @@ def _run_dens(case, ctx):
             k = int(np.argmax(err))
             wit = {"n": n, "radius": r}
             if err[k] > TOL * S + 1e-300:
-                raise Violation("densityfilter/output-differs-from-normalised-cone-average", field=fname, element=k,
+                ctx.violate("densityfilter/output-differs-from-normalised-cone-average", field=fname, element=k,
                                 cell=pos[k].astype(int), got=float(y[k]), want=float(yref[k]), err=float(err[k]),
                                 scale=S, **wit)
-            ctx.count("dens_entries_compared", nel)
-            worst = max(worst, float(err[k]) / max(S, 1e-300))
+            else:
+                ctx.count("dens_entries_compared", nel)
+                worst = max(worst, float(err[k]) / max(S, 1e-300))
             _invariants(ctx, "densityfilter", fname, x, y, wit, averaging=True, volume=False)
     rcls = sorted({("<1" if r < 1 else ">dom" if r > max(n) else "mid") for r in case["radii"]})
     return {"key": f"dens|{n[0]}x{n[1]}x{n[2]}|{','.join(rcls)}", "nontrivial": nel >= 2 and reach,
@@ -474,7 +475,9 @@ def _run_conv(case, ctx):
         r = float(kd["rfac"]) * (1.0 if rel else (d[kd["rax"]] if kd.get("rax", -1) >= 0 else float(np.mean(d[:dim]))))
         for a in range(dim):
             q = r / d[a]
-            if 0 < q - math.floor(q) < 1e-8 * max(q, 1.0):
+            # cut-off weights below 1e-13 relative are invisible at TOL; between that and the module's documented
+            # 1e-10 cut-off the defining formula and the module legitimately differ
+            if 1e-13 * max(q, 1.0) < q - math.floor(q) < 1e-8 * max(q, 1.0):
                 raise Skip("radius within 1e-8 above a multiple of the element size (documented cut-off tolerance)")
         w3 = _cone([n[0], n[1], n[2]], d, r)
         m = pym.FilterConv(sig, domain=dom, radius=r, relative_units=rel, **kw)
@@ -500,7 +503,7 @@ def _run_conv(case, ctx):
         ctx.count("conv_wide_kernel_cases")
     for a in range(3):
         if p[a] > 0:
-            ctx.count("conv_rule_pairs_seen")
+            ctx.count("conv_padded_axes_checked")
     ctx.log("kernel", w3.shape, "modes", jm, "wide axes", wide, "averaging", averaging, "volume", volume)
 
     fields = _fields(rng, nel)
@@ -527,7 +530,9 @@ def _run_conv(case, ctx):
             w_ = dict(field=fname, cell=cell, got=float(y3[tuple(cell)]), want=float(YA[..., f][tuple(cell)]),
                       err=eA, scale=S, **wit)
             if not mixed_wide:
-                raise Violation("filterconv/output-differs-from-convolution-of-extended-field", **w_)
+                ctx.violate("filterconv/output-differs-from-convolution-of-extended-field", **w_)
+                _invariants(ctx, "filterconv", fname, x, y, wit, averaging, volume)
+                continue
             if YB is None:
                 YB = _ref_B(X3, w3, modes)
                 YD = _model_D(X3, w3, modes)
@@ -542,9 +547,10 @@ def _run_conv(case, ctx):
                              and _kind(modes[2 * a + 1]) == "const"]
                 w_["want_if_rule_sees_extended_far_side"] = float(YB[..., f][tuple(cell)])
                 if eD <= tol and sym_const:
-                    raise Violation("filterconv/kernel-wider-than-domain/symmetric-min-side-copies-element-0-"
-                                    "instead-of-constant-max-side", axes=sym_const, **w_)
-                raise Violation("filterconv/kernel-wider-than-domain/output-matches-neither-reading-of-mixed-rules",
+                    ctx.violate("filterconv/kernel-wider-than-domain/symmetric-min-side-copies-element-0-"
+                                "instead-of-constant-max-side", axes=sym_const, **w_)
+                else:
+                    ctx.violate("filterconv/kernel-wider-than-domain/output-matches-neither-reading-of-mixed-rules",
                                 axes=mixed_wide, **w_)
         _invariants(ctx, "filterconv", fname, x, y, wit, averaging, volume)
     kinds = "".join(_kind(mm)[0] for mm in modes[:2 * dim])
